@@ -46,6 +46,9 @@ type ART struct {
 	bufferSizeLimit uint64
 	len             int
 	size            int
+	// lastCheckpoint is the newest checkpoint handed out by Checkpoint() (the zero value protects nothing).
+	// Values at or before it must not be overwritten in place, otherwise RevertToCheckpoint cannot restore them.
+	lastCheckpoint arena.MemDBCheckpoint
 
 	// These variables serve the caching mechanism, meaning they can be concurrently updated by read operations, thus
 	// they are protected by atomic operations.
@@ -422,6 +425,9 @@ func (t *ART) trySwapValue(addr arena.MemdbArenaAddr, value []byte) (int, bool) 
 			return len(oldVal), false
 		}
 	}
+	if !t.allocator.vlogAllocator.CanModify(&t.lastCheckpoint, addr) {
+		return len(oldVal), false
+	}
 	if len(oldVal) > 0 && len(oldVal) == len(value) {
 		copy(oldVal, value)
 		return 0, true
@@ -487,13 +493,22 @@ func (t *ART) IsStaging() bool {
 // Checkpoint returns a checkpoint of ART.
 func (t *ART) Checkpoint() *arena.MemDBCheckpoint {
 	cp := t.allocator.vlogAllocator.Checkpoint()
+	t.lastCheckpoint = cp
 	return &cp
+}
+
+// truncateLastCheckpoint keeps lastCheckpoint inside the vlog after it has been truncated to cp.
+func (t *ART) truncateLastCheckpoint(cp *arena.MemDBCheckpoint) {
+	if cp.LessThan(&t.lastCheckpoint) {
+		t.lastCheckpoint = *cp
+	}
 }
 
 // RevertToCheckpoint reverts the ART to the checkpoint.
 func (t *ART) RevertToCheckpoint(cp *arena.MemDBCheckpoint) {
 	t.allocator.vlogAllocator.RevertToCheckpoint(t, cp)
 	t.allocator.vlogAllocator.Truncate(cp)
+	t.truncateLastCheckpoint(cp)
 	t.allocator.vlogAllocator.OnMemChange()
 	t.WriteSeqNo++
 	if len(t.stages) == 0 || t.stages[0].LessThan(cp) {
@@ -552,6 +567,7 @@ func (t *ART) Cleanup(h int) {
 		if !curr.IsSamePosition(cp) {
 			t.allocator.vlogAllocator.RevertToCheckpoint(t, cp)
 			t.allocator.vlogAllocator.Truncate(cp)
+			t.truncateLastCheckpoint(cp)
 		}
 	}
 	t.stages = t.stages[:h-1]
@@ -562,6 +578,7 @@ func (t *ART) Cleanup(h int) {
 func (t *ART) Reset() {
 	t.root = nullArtNode
 	t.stages = t.stages[:0]
+	t.lastCheckpoint = arena.MemDBCheckpoint{}
 	t.dirty = false
 	t.vlogInvalid = false
 	t.size = 0
